@@ -22,7 +22,13 @@
   reference printer's `- - x`).  Globals may be declared at script level or be handler-level ones (the handler's own table;
   printed as sorted `global g` lines); properties are the script's declared ones.
   Expressions also include the object-less `the` forms: `the <key name>` (43 0; 66 n), `the <movie property>` (5f n),
-  `the <system property>` (k; 5c 07), `the floatPrecision … the timeoutScript` (k; 5c 00).
+  `the <system property>` (k; 5c 07), `the floatPrecision … the timeoutScript` (k; 5c 00); `the <p> of sprite|cast|sound n`
+  (n; k; 5c 06/09/04/0d; n a literal, plain string or variable — else F20); `the <p> of <obj>` (obj; 61 n; the object's text not
+  starting with `_`, not `tell_obj` / `me`: F142).  Assignment targets: the four variable kinds, `set the <p> of sprite|cast|sound n`
+  (5d 06/09/04/0d), `set the <system property>` (5d 07), `set the floatPrecision …` (5d 00), `set the <p> of <obj>` (62 n).
+
+  WHOLE SCRIPTS (`T_link_all`, `T_C02_all`): `FragScriptM` (DrxProofs/LinkMixed.lean) — every handler is either flat (`FragH`) or
+  structured (`FragHS`).
 
   STRUCTURED bodies (`T_link_structured`, `T_C02_structured`): `if … then … [else …] end if`, `repeat while c`,
   `repeat with <local> = a [down] to b`, nested to any depth, over the same simple statements / expressions.  Fragment =
@@ -35,6 +41,7 @@ import DrxProofs.LinkParse
 import DrxProofs.LinkLexText
 import DrxProofs.LinkRead
 import DrxProofs.LinkTextT
+import DrxProofs.LinkMixed
 namespace DrxProps.C02Link
 open Drx Drx.Spec Drx.Link Drx.LinkFlow
 
@@ -136,6 +143,37 @@ theorem T_C02_structured (o : Options) (s : Script) (c : Compiled) (hf : FragScr
   simp only [readLingo, h2, Option.bind_some]
   exact read_dToks_structured s hx hr
 
+/-! ### one theorem for whole scripts: every handler flat (`FragH`) or structured (`FragHS`) -/
+
+/-- **T-link, all**: `FragScriptM s` (DrxProofs/LinkMixed.lean, decidable) = plain script whose handlers are each either a flat
+    handler of `FragScript` (every expression form of `FragE` anywhere) or a structured handler (`FragTs`, `okAmbs`, `FragHX`) -/
+theorem T_link_all (o : Options) (s : Script) (c : Compiled) (hf : FragScriptM s = true) (hc : compile o s = .ok c) (hn : NamesOk c) :
+    modelDecompile c.lscr c.lnam = some (mText s) ∧ lex (mText s) = some (dToks s) := by
+  obtain ⟨t, hp, hr⟩ := parse_mixed o s c hf hc hn.1 hn.2
+  obtain ⟨_, _, _, hH⟩ := fragScriptM_spec s hf
+  have hHX : ∀ h ∈ s.handlers, FragXs h.body = true ∧ ∀ v ∈ h.params, idOk v = true := by
+    intro h hh
+    obtain ⟨_, _, b, c, _, _, _⟩ := fragHM_spec s h (hH h hh)
+    exact ⟨c, b⟩
+  have ht := lingoText_structured s t hr hHX
+  refine ⟨?_, lex_mText_mixed s hf⟩
+  simp only [modelDecompile, hp, Lscr.genLingo, ht]
+
+/-- **T-C02, all** (subsumes `T_C02` and `T_C02_structured`) -/
+theorem T_C02_all (o : Options) (s : Script) (c : Compiled) (hf : FragScriptM s = true) (hr : ReadOkB s = true)
+    (hc : compile o s = .ok c) (hn : NamesOk c) :
+    ∃ text, modelDecompile c.lscr c.lnam = some text ∧ readLingo text = some s := by
+  obtain ⟨h1, h2⟩ := T_link_all o s c hf hc hn
+  refine ⟨mText s, h1, ?_⟩
+  simp only [readLingo, h2, Option.bind_some]
+  exact read_dToks_mixed s hf hr
+
+/-- the flat fragment is part of the mixed one -/
+theorem fragScript_mixed (s : Script) (hf : FragScript s = true) : FragScriptM s = true := by
+  simp only [FragScript, Bool.and_eq_true, List.all_eq_true] at hf
+  simp only [FragScriptM, Bool.and_eq_true, List.all_eq_true]
+  exact ⟨hf.1, fun h hh => by simp [FragHM, hf.2 h hh]⟩
+
 /-! ### non-vacuity: a two-handler script with nested expressions, parameters, locals, a global and a property -/
 
 def exScript : Script :=
@@ -156,6 +194,11 @@ def exScript : Script :=
                       (.bin .add (.the .special 0 []) (.movie "frameLabel".toList)))),
                   .set (.var .loc "q".toList) (.list [.the .sprite 13 [.int 3], .the .cast 1 [.var .loc "z".toList], .the .sound 1 [.int 2],
                       .the .video 13 [.str "clip".toList]]),
+                  .set (.the .sprite 13 [.var .loc "z".toList]) (.bin .add (.the .sprite 13 [.var .loc "z".toList]) (.int 5)),
+                  .set (.the .cast 2 [.str "title".toList]) (.str "Done".toList),
+                  .set (.the .sys 0x1b []) (.int 255),
+                  .set (.the .special 0 []) (.int 4),
+                  .set (.oprop "width".toList (.var .loc "q".toList)) (.bin .mul (.oprop "height".toList (.call "rect".toList [.var .loc "z".toList])) (.int 2)),
                   .call "beep".toList [],
                   .exit ] } ] }
 
@@ -173,7 +216,7 @@ example : ∃ c, compile {} exScript = .ok c ∧ NamesOk c := by
 
 /-- the text the theorem predicts for the example (also the output of the real decompiler on the compiled chunks) -/
 example : String.ofList (mText exScript) =
-    "property score\nglobal gTotal\n\non startUp a, b\n    set x = ((a - (gTotal - 1)) * -(b + 70000))\n    set score = not (x <= 300)\n    set gTotal = sprite 1 within (x + 2)\nend\n\non finish\n    global counter\n    global zLast\n\n    set y = (score & (0 mod 129))\n    set z = max(field 3, [1, y, []])\n    startUp z, startUp(1, 2)\n    alert \"Hi there!\", #warn, (\"a\" && z)\n    set zLast = (counter + gTotal)\n    set w = (the mouseH + (the stageColor + (the floatPrecision + the frameLabel)))\n    set q = [the locH of sprite 3, the name of cast z, the volume of sound 2, the duration of cast \"clip\"]\n    beep\n    exit\nend\n" := by
+    "property score\nglobal gTotal\n\non startUp a, b\n    set x = ((a - (gTotal - 1)) * -(b + 70000))\n    set score = not (x <= 300)\n    set gTotal = sprite 1 within (x + 2)\nend\n\non finish\n    global counter\n    global zLast\n\n    set y = (score & (0 mod 129))\n    set z = max(field 3, [1, y, []])\n    startUp z, startUp(1, 2)\n    alert \"Hi there!\", #warn, (\"a\" && z)\n    set zLast = (counter + gTotal)\n    set w = (the mouseH + (the stageColor + (the floatPrecision + the frameLabel)))\n    set q = [the locH of sprite 3, the name of cast z, the volume of sound 2, the duration of cast \"clip\"]\n    set the locH of sprite z = (the locH of sprite z + 5)\n    set the text of cast \"title\" = \"Done\"\n    set the stageColor = 255\n    set the floatPrecision = 4\n    set the width of q = (the height of rect(z) * 2)\n    beep\n    exit\nend\n" := by
   decide +kernel
 
 /-! ### non-vacuity, structured -/
@@ -209,6 +252,35 @@ example : ∃ c, compile {} exStructured = .ok c ∧ NamesOk c := by
 
 example : String.ofList (mText exStructured) =
     "on go n\n    set x = 1\n    repeat while not (x >= n)\n        if (x = 3) then\n            repeat with i = 1 to 9\n                show i\n            end repeat\n        else\n            set x = (x + 2)\n        end if\n        show x\n    end repeat\n    repeat with j = (n * 2) down to 1\n        if the mouseDown then\n            exit\n        end if\n    end repeat\nend\n" := by
+  decide +kernel
+
+/-- a flat handler with `the` forms in assignments next to a structured handler -/
+def exMixed : Script :=
+  { factory := [], props := [], globals := ["gScore".toList],
+    handlers := [
+      { name := "mouseUp".toList, params := [], isMethod := false,
+        body := [ .set (.var .loc "h".toList) (.key "mouseH".toList),
+                  .set (.the .sprite 13 [.int 5]) (.bin .sub (.var .loc "h".toList) (.int 16)),
+                  .call "count".toList [.var .loc "h".toList] ] },
+      { name := "count".toList, params := ["n".toList], isMethod := false,
+        body := [ .repeatWith (.var .loc "i".toList) (.int 1) (.var .param "n".toList) false [
+                    .ifThen (.bin .gt (.the .sprite 13 [.var .loc "i".toList]) (.int 300))
+                      [ .set (.var .glob "gScore".toList) (.bin .add (.var .glob "gScore".toList) (.int 1)) ] [] ] ] } ] }
+
+example : FragScriptM exMixed = true := by decide +kernel
+example : FragScript exMixed = false := by decide +kernel
+example : ReadOkB exMixed = true := by decide +kernel
+
+example : ∃ c, compile {} exMixed = .ok c ∧ NamesOk c := by
+  have h : (match compile {} exMixed with
+      | .ok c => decide ((∀ n ∈ c.names, asciiName n = true) ∧ c.names.length < 32768)
+      | .error _ => false) = true := by decide +kernel
+  cases hc : compile {} exMixed with
+  | error e => rw [hc] at h; cases h
+  | ok c => rw [hc] at h; exact ⟨c, rfl, by simpa [NamesOk] using h⟩
+
+example : String.ofList (mText exMixed) =
+    "global gScore\n\non mouseUp\n    set h = the mouseH\n    set the locH of sprite 5 = (h - 16)\n    count h\nend\n\non count n\n    repeat with i = 1 to n\n        if (the locH of sprite i > 300) then\n            set gScore = (gScore + 1)\n        end if\n    end repeat\nend\n" := by
   decide +kernel
 
 end DrxProps.C02Link
